@@ -1797,6 +1797,13 @@ func (ev *Ev) sliceExpr(x *ast.SliceExpr) Value {
 	}
 	if lo == "0" {
 		res.Comp["#arr"] = base.Comp["#arr"]
+		if x.High != nil && !ev.spec {
+			// s[:k]: same backing array, shorter length - appending to it writes into the array s still refers to
+			if u.cuts == nil {
+				u.cuts = map[string]bool{}
+			}
+			u.cuts[res.Comp["#arr"].T+"|"+res.Comp["#len"].T] = true
+		}
 		return res
 	}
 	// s[a:b] with a > 0: a view of the same backing array; element reads, writes and copy() through the view are redirected
@@ -1812,6 +1819,17 @@ func (ev *Ev) sliceExpr(x *ast.SliceExpr) Value {
 }
 
 type viewInfo struct{ base, lo string }
+
+// isCut: the slice value is a re-sliced view (s[i:j], or s[:k] as produced by a slice expression of this unit).
+func (u *Unit) isCut(s Value) bool {
+	if s.K != vSlice {
+		return false
+	}
+	if _, ok := u.views[s.Comp["#arr"].T]; ok {
+		return true
+	}
+	return u.cuts[s.Comp["#arr"].T+"|"+s.Comp["#len"].T]
+}
 
 // resolveView maps (array, index) through re-slicing views to the underlying array.
 func (u *Unit) resolveView(ref, idx string) (string, string) {
